@@ -94,14 +94,17 @@ def rt(run):
         # regression tier: saved minimal cases of earlier findings, replayed without any RNG
         for f in common.saved_replays(run.prop):
             run.run_harness(b, timeout=300, label="regression:" + os.path.basename(f), replay_file=f)
-    run.run_harness(b, timeout=7200)
+    # (quick runs take seconds; a harness that spins - only ever seen on deliberately broken trees -
+    # is cut off and reported as inconclusive)
+    t_main = 1500 if run.tier == "quick" else 7200
+    run.run_harness(b, timeout=t_main)
     if run.prop == "C13":
         # (C13's subject, the integer coding of io::Error, only exists with the `std` feature:
         # its second configuration keeps `std` and adds `log` at trace level, release profile)
         b2 = build_rtprops_alt_std()
         run.tier_override = "quick"
         try:
-            run.run_harness(b2, timeout=7200, label="altcfg-std-rtprops")
+            run.run_harness(b2, timeout=1500, label="altcfg-std-rtprops")
         except Infra:
             if not any(r.get("violations") for r in run.results):
                 raise
@@ -114,7 +117,7 @@ def rt(run):
         b2 = build_rtprops_alt(release=True)
         run.tier_override = "quick"
         try:
-            run.run_harness(b2, timeout=7200, label="altcfg-rtprops")
+            run.run_harness(b2, timeout=1500, label="altcfg-rtprops")
         except Infra:
             # a violation already found by the first pass stands; only without one is the run inconclusive
             if not any(r.get("violations") for r in run.results):
